@@ -50,6 +50,13 @@ type Settings struct {
 	hasTableSize  bool
 	hasMaxStreams bool
 	hasFrameSize  bool
+
+	// tableSizeMin is the smallest SETTINGS_HEADER_TABLE_SIZE the frame
+	// carried. The values of a frame take effect in the order they appear (RFC
+	// 7540 6.5.3): a frame that lowers the table size and raises it again has
+	// made the peer's decoder drop entries, and the encoder has to follow (RFC
+	// 7541 4.2).
+	tableSizeMin uint32
 }
 
 func (st *Settings) Type() FrameType {
@@ -71,6 +78,7 @@ func (st *Settings) Reset() {
 	st.hasTableSize = false
 	st.hasMaxStreams = false
 	st.hasFrameSize = false
+	st.tableSizeMin = 0
 }
 
 // CopyTo copies st fields to st2.
@@ -87,6 +95,7 @@ func (st *Settings) CopyTo(st2 *Settings) {
 	st2.hasTableSize = st.hasTableSize
 	st2.hasMaxStreams = st.hasMaxStreams
 	st2.hasFrameSize = st.hasFrameSize
+	st2.tableSizeMin = st.tableSizeMin
 }
 
 // SetHeaderTableSize sets the maximum size of the header
@@ -198,6 +207,10 @@ func (st *Settings) Read(d []byte) error {
 
 		switch key {
 		case HeaderTableSize:
+			if !st.hasTableSize || value < st.tableSizeMin {
+				st.tableSizeMin = value
+			}
+
 			st.tableSize = value
 			st.hasTableSize = true
 		case EnablePush:
